@@ -185,7 +185,7 @@ var c06LocRe = regexp.MustCompile(`file="([^"]*)" index=(\d+) line=(\d+)`)
 // different TYPE directives, several user types are faulty and the schema library reports whichever its iteration over the
 // type list (a Go map) meets first - the class says so, it is the signature of the open finding N7.
 func c06RefineLocationClass(p *vlib.Project, class, a, b string) string {
-	if !strings.HasPrefix(class, "error-location:") {
+	if !strings.HasPrefix(class, "error-location:") && !strings.HasPrefix(class, "error-message:") {
 		return class
 	}
 	ma, mb := c06LocRe.FindStringSubmatch(a), c06LocRe.FindStringSubmatch(b)
@@ -196,7 +196,8 @@ func c06RefineLocationClass(p *vlib.Project, class, a, b string) string {
 	lb, _ := strconv.Atoi(mb[3])
 	ta, tb := c06TypeBlockAt(p, ma[1], la), c06TypeBlockAt(p, mb[1], lb)
 	if ta != "" && tb != "" && ta != tb {
-		return "error-location-among-faulty-types:" + strings.TrimPrefix(class, "error-location:")
+		// (each faulty type has its own message: `Duplicate key "@key"` in one, `Duplicate key "p0"` in the other)
+		return "error-location-among-faulty-types:" + strings.TrimPrefix(strings.TrimPrefix(class, "error-location:"), "error-message:")
 	}
 	return class
 }
